@@ -378,6 +378,8 @@ def recognise_line(line, version=None, dialect="standard"):
     r = worst(*vs)
     if r[0] == INVALID:
         return r
+    if any(x[0] == UNSPEC and "conversion limit" in x[1] for x in vs):
+        return r                    # the cross-field rules cannot be evaluated
     rec = parse_line(line, v)
     if key == ("gfa1", "S"):
         ln = rec.tag("LN")
